@@ -343,13 +343,55 @@ class PubSubWorld:
             return ('exc', type(ex).__name__)
 
     # ---- the listener
-    def deliver(self, hid, k):
-        """-> ('ok', None) | ('exc', class): how `_thread()` ended"""
+    def _run_quiescent(self, w, coro):
+        """asyncio: run `coro` as a task until it is done or the loop has nothing left to run (no ready callback:
+        whatever the task waits for can never arrive in this in-memory world, and timers are never advanced).
+        -> ('done', task) | ('pending', where the task is suspended, as text)"""
+        import traceback
+        loop = w.loop
+        task = loop.create_task(coro)
+        for _turn in range(100000):
+            if task.done() or not loop._ready:
+                break
+            loop.call_soon(loop.stop)
+            loop.run_forever()
+        if task.done():
+            return ('done', task)
+        where = []
+        for t in sorted((t for t in asyncio.all_tasks(loop) if not t.done()), key=lambda t: t is not task):
+            where.append('task %s%s' % (t.get_coro().__qualname__, ' (the listener)' if t is task else ''))
+            c = t.get_coro()
+            while c is not None:           # the chain of awaits, outermost first
+                fr = getattr(c, 'cr_frame', None) or getattr(c, 'gi_frame', None) or getattr(c, 'ag_frame', None)
+                if fr is None:
+                    where.append('  waits for %r' % (c,))
+                    break
+                where.append('  %s:%d in %s' % (fr.f_code.co_filename, fr.f_lineno, fr.f_code.co_name))
+                c = getattr(c, 'cr_await', None) or getattr(c, 'gi_yieldfrom', None) or getattr(c, 'ag_await', None)
+        pend = [t for t in asyncio.all_tasks(loop) if not t.done()]
+        for t in pend:
+            t.cancel()
+        try:
+            loop.run_until_complete(asyncio.gather(*pend, return_exceptions=True))
+        except BaseException:   # noqa  (tidying up after a verdict)
+            traceback.print_exc()
+        return ('pending', '\n'.join(where))
+
+    def deliver(self, hid, k, quiescent=False):
+        """-> ('ok', None) | ('exc', class): how `_thread()` ended.  `quiescent=True` (asyncio; for listeners
+        that may wait for something that never comes): the loop is run until nothing is runnable instead of
+        until the listener returns; -> ('pending', where it is suspended) if it has not finished by then."""
         i = self.index(hid)
         m = self.mgr[i]
         m.limit = min(len(self.chan.msgs), m.cursor + k)
         w = self.hosts[i]
         try:
+            if quiescent and self.is_async and not w.loop.is_running():
+                how, x = self._run_quiescent(w, m._thread())
+                if how == 'pending':
+                    return ('pending', x)
+                x.result()
+                return ('ok', None)
             self._await(w, m._thread())
             return ('ok', None)
         except BaseException as ex:   # noqa  (a scripted Fatal — or SystemExit / KeyboardInterrupt /
